@@ -13,7 +13,9 @@ import time
 
 ROOT = os.path.dirname(os.path.dirname(os.path.abspath(__file__)))
 SPEC = os.path.join(ROOT, "spec")
-OUT = os.path.join(ROOT, "out")
+# scratch of THIS run (several checks may run at the same time: work directories must not collide); VERIF_RUN_ID is
+# set by harness/check.py and inherited by its worker processes
+OUT = os.path.join(ROOT, "out", "run_" + os.environ.get("VERIF_RUN_ID", "dev"))
 JAR = "/opt/veriftools/tla/tla2tools.jar:/opt/veriftools/tla/CommunityModules-deps.jar"
 
 
